@@ -111,6 +111,35 @@ def _run_cvc5(smt2: str, ms: int, seed: int, want_model: bool):
     return "unknown", str(r.getUnknownExplanation()), dt
 
 
+def _cvc5_values(m):
+    """cvc5 prints values as SMT-LIB text; turn the common ones into Python values."""
+    out = {}
+    for k, v in (m or {}).items():
+        k = k.strip("|")
+        if isinstance(v, str):
+            if v in ("true", "false"):
+                out[k] = v == "true"
+                continue
+            if re.fullmatch(r"-?\d+", v):
+                out[k] = int(v)
+                continue
+            mm = re.fullmatch(r"\(- (\d+)\)", v)
+            if mm:
+                out[k] = -int(mm.group(1))
+                continue
+            mm = re.fullmatch(r"\(/ (-?\d+) (\d+)\)", v)
+            if mm:
+                out[k] = {"num": int(mm.group(1)), "den": int(mm.group(2))}
+                continue
+            if len(v) >= 2 and v[0] == '"' and v[-1] == '"':
+                body = v[1:-1].replace('""', '"')
+                body = re.sub(r"\\u\{([0-9a-fA-F]+)\}", lambda g: chr(int(g.group(1), 16)), body)
+                out[k] = body
+                continue
+        out[k] = v
+    return out
+
+
 def solve_one(task):
     key, smt2, seed = task
     log = []
@@ -127,17 +156,7 @@ def solve_one(task):
         if r == "unsat":
             return key, r, None, log, "cvc5"
         if r == "sat":
-            # prefer a z3 model (typed values); fall back to cvc5's textual one
-            try:
-                r2, m2, dt2 = _run_z3(smt2, Z3_SLOW_MS, seed + 1)
-                log.append(("z3-slow", r2, round(dt2, 3)))
-                if r2 == "sat":
-                    return key, "sat", m2, log, "cvc5+z3"
-                if r2 == "unsat":
-                    return key, "unknown", "solver disagreement: cvc5 sat, z3 unsat", log, "disagree"
-            except Exception:
-                pass
-            return key, "sat", m, log, "cvc5"
+            return key, "sat", _cvc5_values(m), log, "cvc5"
     except Exception as e:
         log.append(("cvc5", "error:" + str(e)[:200], 0))
     try:
@@ -175,15 +194,147 @@ def solve_both(task):
     return key, r, (m if r == "sat" else None), log, who
 
 
+MAX_SPLIT_ATOMS = int(os.environ.get("PYVC_SPLIT_ATOMS", "4"))
+
+
+def ite_conditions(formulas, limit):
+    """Conditions of string-sorted if-then-else terms (from the merge of conditional values)."""
+    seen, conds, stack = set(), [], list(formulas)
+    while stack:
+        e = stack.pop()
+        if e.get_id() in seen:
+            continue
+        seen.add(e.get_id())
+        if z3.is_app(e):
+            if e.decl().kind() == z3.Z3_OP_ITE and e.sort() == z3.StringSort():
+                c = e.arg(0)
+                if all(not c.eq(x) for x in conds):
+                    conds.append(c)
+            stack.extend(e.children())
+        # quantifier bodies are not entered: their terms mention bound variables
+    # smaller conditions first (they tend to be the atoms nested ones are built from)
+    conds.sort(key=lambda c: len(c.sexpr()))
+    return conds[:limit]
+
+
+def split_cases(pc, goal):
+    """Case split on the conditions of string-valued ite terms: each case asserts the literals
+    and rewrites the formulas with the conditions replaced by constants, so that the solvers see
+    plain word equations.  All cases unsat <=> the obligation is discharged."""
+    conds = ite_conditions(list(pc) + [goal], MAX_SPLIT_ATOMS)
+    if not conds:
+        return [(list(pc), goal)]
+    cases = []
+    for bits in range(1 << len(conds)):
+        subst, lits = [], []
+        for i, c in enumerate(conds):
+            val = bool(bits >> i & 1)
+            subst.append((c, z3.BoolVal(val)))
+            lits.append(c if val else z3.Not(c))
+        new_pc = []
+        dead = False
+        for p in pc:
+            q = z3.simplify(z3.substitute(p, *subst))
+            if z3.is_false(q):
+                dead = True
+                break
+            if not z3.is_true(q):
+                new_pc.append(q)
+        if dead:
+            continue
+        # literals: substitute the *other* conditions inside them too
+        for i, l in enumerate(lits):
+            others = [sv for j, sv in enumerate(subst) if j != i]
+            q = z3.simplify(z3.substitute(l, *others)) if others else l
+            if z3.is_false(q):
+                dead = True
+                break
+            if not z3.is_true(q):
+                new_pc.append(q)
+        if dead:
+            continue
+        g = z3.simplify(z3.substitute(goal, *subst))
+        if z3.is_true(g):
+            continue
+        cases.append((new_pc, g))
+    return cases
+
+
+def _flatten_concat(t):
+    if z3.is_app(t) and t.decl().kind() == z3.Z3_OP_SEQ_CONCAT:
+        out = []
+        for ch in t.children():
+            out.extend(_flatten_concat(ch))
+        return out
+    return [t]
+
+
+def theory_lemmas(formulas):
+    """Valid string-theory facts, instantiated for the IndexOf-over-concatenation terms that
+    occur in the query (helps both solvers; adds no assumption):
+        (no a_i with i<j contains c) and a_j starts with c  =>  indexof(a_0++...++a_n, c, 0) = len(a_0)+...+len(a_{j-1})
+    """
+    seen, out, stack, done = set(), [], list(formulas), set()
+    while stack:
+        e = stack.pop()
+        if e.get_id() in seen:
+            continue
+        seen.add(e.get_id())
+        if not z3.is_app(e):
+            continue  # quantifier bodies are not entered: their terms mention bound variables
+        stack.extend(e.children())
+        if e.decl().kind() == z3.Z3_OP_SEQ_INDEX and e.num_args() >= 2:
+            T, c = e.arg(0), e.arg(1)
+            start = e.arg(2) if e.num_args() > 2 else z3.IntVal(0)
+            if not (z3.is_string_value(c) and len(c.as_string()) == 1 and z3.is_int_value(start) and start.as_long() == 0):
+                continue
+            parts = _flatten_concat(T)
+            if len(parts) < 2 or e.get_id() in done:
+                continue
+            done.add(e.get_id())
+            for j in range(len(parts)):
+                before = [z3.Not(z3.Contains(a, c)) for a in parts[:j]]
+                lens = [z3.Length(a) for a in parts[:j]]
+                off = z3.IntVal(0) if not lens else (lens[0] if len(lens) == 1 else z3.Sum(lens))
+                out.append(z3.Implies(z3.And(*before, z3.PrefixOf(c, parts[j])), e == off))
+            out.append(z3.Implies(z3.And(*[z3.Not(z3.Contains(a, c)) for a in parts]), e == -1))
+    return out
+
+
 def discharge(obligations, seed=0, both=False, procs=None):
-    tasks = [(ob.key, to_smt2(ob.pc, ob.goal, ob.info.get("witness")), seed) for ob in obligations]
+    tasks = []
+    ncases = {}
+    for ob in obligations:
+        cases = split_cases(ob.pc, ob.goal)
+        ncases[ob.key] = len(cases)
+        for i, (pc, goal) in enumerate(cases):
+            pc = list(pc) + theory_lemmas(list(pc) + [goal])
+            tasks.append((f"{ob.key}#{i}", to_smt2(pc, goal, ob.info.get("witness")), seed))
     procs = procs or min(16, max(1, len(tasks)))
     results = {}
-    if not tasks:
-        return results
+    partial = {}
     fn = solve_both if both else solve_one
-    ctxm = mp.get_context("fork")
-    with ctxm.Pool(procs) as pool:
-        for key, r, m, log, who in pool.imap_unordered(fn, tasks, chunksize=1):
-            results[key] = {"result": r, "model": m, "log": log, "backend": who}
+    if tasks:
+        ctxm = mp.get_context("fork")
+        with ctxm.Pool(procs) as pool:
+            for key, r, m, log, who in pool.imap_unordered(fn, tasks, chunksize=1):
+                partial.setdefault(key.split("#")[0], []).append({"result": r, "model": m, "log": log, "backend": who})
+    for ob in obligations:
+        parts = partial.get(ob.key, [])
+        log = [l for p_ in parts for l in p_["log"]]
+        if not parts:  # every case was closed by rewriting alone
+            results[ob.key] = {"result": "unsat", "model": None, "log": [("simplify", "unsat", 0.0)], "backend": "simplify", "cases": 0}
+            continue
+        sat = [p_ for p_ in parts if p_["result"] == "sat"]
+        if sat:
+            results[ob.key] = dict(sat[0], log=log, cases=len(parts))
+        elif any(p_["result"] == "error" for p_ in parts):
+            bad = [p_ for p_ in parts if p_["result"] == "error"][0]
+            results[ob.key] = dict(bad, log=log, cases=len(parts))
+        elif any(p_["result"] == "unknown" for p_ in parts):
+            bad = [p_ for p_ in parts if p_["result"] == "unknown"][0]
+            results[ob.key] = dict(bad, log=log, cases=len(parts))
+        else:
+            backends = sorted({p_["backend"] for p_ in parts})
+            results[ob.key] = {"result": "unsat", "model": None, "log": log, "backend": "+".join(backends), "cases": len(parts)}
     return results
